@@ -290,6 +290,7 @@ class ApplyROI(Command):
             for subset in data.subsets:
                 self.old_states[subset] = subset.subset_state
         self.old_groups = self.data_collection.subset_groups
+        self.old_group_states = [(group, group.subset_state) for group in self.old_groups]
         self.old_group_count = self.data_collection._sg_count
         self.old_edit_subset = session.edit_subset_mode.edit_subset
 
@@ -308,6 +309,12 @@ class ApplyROI(Command):
 
         for k, v in self.old_states.items():
             k.subset_state = v
+
+        # Groups that have no subsets at this point (because the collection
+        # contains no datasets) are not covered by the loop above
+        for group, state in self.old_group_states:
+            if len(group.subsets) == 0:
+                group.subset_state = state
 
         session.edit_subset_mode.edit_subset = self.old_edit_subset
 
@@ -335,6 +342,7 @@ class ApplySubsetState(Command):
             for subset in data.subsets:
                 self.old_states[subset] = subset.subset_state
         self.old_groups = self.data_collection.subset_groups
+        self.old_group_states = [(group, group.subset_state) for group in self.old_groups]
         self.old_group_count = self.data_collection._sg_count
         self.old_edit_subset = session.edit_subset_mode.edit_subset
 
@@ -361,6 +369,12 @@ class ApplySubsetState(Command):
 
         for k, v in self.old_states.items():
             k.subset_state = v
+
+        # Groups that have no subsets at this point (because the collection
+        # contains no datasets) are not covered by the loop above
+        for group, state in self.old_group_states:
+            if len(group.subsets) == 0:
+                group.subset_state = state
 
         session.edit_subset_mode.edit_subset = self.old_edit_subset
 
